@@ -9,6 +9,7 @@ import (
 	"testing"
 
 	"github.com/tokenized/pkg/storage"
+	"github.com/tokenized/pkg/wire"
 )
 
 func demoLoadPeers(t *testing.T, data []byte) (repo *StoragePeerRepository, panicked interface{}) {
@@ -62,5 +63,20 @@ func Test_Demo_PeersLoadDuplicate(t *testing.T) {
 	list, _ := repo.Get(context.Background(), -100, -1)
 	if len(list) != 1 {
 		t.Errorf("Get returned the address %d times", len(list))
+	}
+}
+
+// C15: an extended message declaring an enormous transaction length must not crash the process.
+func Test_Demo_HugeDeclaredLength(t *testing.T) {
+	defer func() {
+		if r := recover(); r != nil {
+			t.Errorf("readMessage panicked on a declared length of 2^62: %v", r)
+		}
+	}()
+	header := &wire.MessageHeader{Length: 1 << 62}
+	copy(header.Command[:], "extmsg")
+	err := readMessage(bytes.NewReader([]byte{1, 2, 3}), header, &wire.MsgTx{})
+	if err == nil {
+		t.Errorf("no error for a truncated message")
 	}
 }
